@@ -3,6 +3,7 @@ package checks
 import (
 	"context"
 	"fmt"
+	"fortio.org/log"
 	"math"
 	"regexp"
 	"runtime/debug"
@@ -112,6 +113,9 @@ func c01Compare(kind string, inputs []string) *core.Viol {
 	cfgs := []sessCfg{{noReg: true, cacheOff: true}, {}}
 	if kind == "stmt" && len(inputs) <= 2 {
 		cfgs = append(cfgs, sessCfg{}) // third: the default configuration evaluated without any context
+		if strings.Count(text, ";")+strings.Count(text, "\n") <= 6 {
+			cfgs = append(cfgs, sessCfg{}) // fourth (shorter programs): the default configuration at debug log level
+		}
 	}
 	for ci, cfg := range cfgs {
 		name := "plain"
@@ -122,6 +126,12 @@ func c01Compare(kind string, inputs []string) *core.Viol {
 		if ci == 2 {
 			name = "no-context"
 			x.noContext = true
+		}
+		if ci == 3 {
+			name = "debug-log-level"
+			prev := log.GetLogLevel()
+			log.SetLogLevelQuiet(log.Debug)
+			defer log.SetLogLevelQuiet(prev)
 		}
 		for i, src := range inputs {
 			got := implEval(x, src, 300000)
@@ -400,7 +410,7 @@ func runC01(c *core.Ctx) {
 		}
 		bounds = append(bounds, fmt.Sprintf("error identity: %d constructs x 3 scopes whose operand raises error(\"MARK7\"): the message caught around the construct is MARK7 (also on a state without context), and 340000 repetitions of the caught construct still run", len(ctxs)))
 	}
-	c.P.Bound = strings.Join(bounds, "; ") + "; each in the plain (no registers, cache off) and default configuration"
+	c.P.Bound = strings.Join(bounds, "; ") + "; each in the plain (no registers, cache off) and default configuration; the statement family also on a state without context and (programs of up to 6 statements) at debug log level"
 }
 
 var reLineStartsWithOperator = regexp.MustCompile(`\n\s*(\+|-|\^|\(|\[)`)
